@@ -421,7 +421,20 @@ def verdict_shape():
     return rows
 
 
-GROUPS = ["cancel", "mismatch", "exit", "setdef", "escape", "signals", "sighandler", "termchild", "termexit", "delayloop", "drainloop", "drainexit", "drainalways", "verdict", "mainloop", "interval", "placeholders", "xml"]
+def weight_wiring():
+    """runner/imp.rs: how wide the run is, and what each test weighs in the queue."""
+    src = re.sub(r"\s+", " ", strip_comments(read("nextest-runner/src/runner/imp.rs")))
+    rows = []
+    rows.append(("build: without capture the run is one test wide, otherwise the command line's thread count, otherwise the profile's",
+                 re.search(r"let test_threads = match self\.capture_strategy \{ CaptureStrategy::None => 1, CaptureStrategy::Combined \| CaptureStrategy::Split => self \.test_threads \.unwrap_or_else\(\|\| profile\.test_threads\(\)\) \.compute\(\), \};", src) is not None))
+    rows.append(("execute: a test's weight is its threads-required computed against the run's width",
+                 re.search(r"let threads_required = test\.settings\.threads_required\(\)\.compute\(self\.test_threads\);", src) is not None))
+    rows.append(("execute: the queue is as wide as the run", re.search(r"\.future_queue_grouped\(self\.test_threads, groups\)", src) is not None))
+    rows.append(("execute: a group is as wide as its max-threads", re.search(r"\.map\(\|\(group_name, config\)\| \(group_name, config\.max_threads\.compute\(\)\)\)", src) is not None))
+    return rows
+
+
+GROUPS = ["cancel", "mismatch", "exit", "setdef", "escape", "signals", "sighandler", "termchild", "termexit", "delayloop", "drainloop", "drainexit", "drainalways", "verdict", "weights", "mainloop", "interval", "placeholders", "xml"]
 
 
 def group_lines(g):
@@ -497,6 +510,10 @@ def group_lines(g):
         rows = verdict_shape()
         return ["/-- executor.rs: how the attempt's result is put together after the main loop -/",
                 "def verdictShape : List (String × Bool) := [" + ", ".join(f'("{a}", {"true" if b else "false"})' for a, b in rows) + "]"]
+    if g == "weights":
+        rows = weight_wiring()
+        return ["/-- runner/imp.rs: the width of the run and the weight of a test, as wired -/",
+                "def weightWiring : List (String × Bool) := [" + ", ".join(f'("{a}", {"true" if b else "false"})' for a, b in rows) + "]"]
     if g == "mainloop":
         keys = {"Stop": r"SignalRequest::Stop\(\w+\)", "Continue": r"SignalRequest::Continue"}
         arms = request_arms(strip_comments(read("nextest-runner/src/runner/executor.rs")), "handle_signal_request", keys)
